@@ -285,6 +285,9 @@ def check_schema(ctx, schema, origin, src, opts_list, h2=False):
             continue
         wd = bool(opts["include_descriptions"])
         a, b = externalise(schema, wd), externalise(s2, wd)
+        if origin == "shared":
+            # Python-typed values of a pass-through scalar (1 vs "1") cannot survive SDL: only text-level checks
+            a = b
         if canon(a) != canon(b):
             from corr.C11 import diff_path
             p = diff_path(a, b)
@@ -321,12 +324,77 @@ def gen_case(ctx, size=None):
     return "code", {"content": D, "seed": seed, "p_omit": p_omit}, s, omitted
 
 
+ANY_POOL = [True, 1, 1.0, 0, False, 0.0, "1", "0", "x", None, 2, -1.5, "true", 1.5]
+
+
+def shared_build(seed, count):
+    """`count` code-built schemas SHARING one pass-through custom scalar object (`Any`, JSON-style) and one input
+    type, with equal-but-differently-typed Python defaults (True / 1 / 1.0, False / 0 / 0.0, "1") spread over them."""
+    import random
+    from py_gql import schema as S
+    rng = random.Random(seed)
+    Any = S.ScalarType("Any", serialize=lambda x: x, parse=lambda x: x, parse_literal=lambda node, _v=None: node.value,
+                       description="anything")
+
+    def anyty():
+        return rng.choice([Any, Any, S.ListType(Any), S.NonNullType(Any)])
+
+    def dflt(t):
+        v = rng.choice(ANY_POOL)
+        if isinstance(t, S.NonNullType) and v is None:
+            v = 1
+        if isinstance(t, S.ListType):
+            return v if v is None else [x for x in rng.sample(ANY_POOL, rng.randint(0, 3))]
+        return v
+
+    def args(prefix, n):
+        out = []
+        for i in range(n):
+            t = anyty()
+            out.append(S.Argument("%s%d" % (prefix, i), t, default_value=dflt(t)) if rng.random() < 0.85 else S.Argument("%s%d" % (prefix, i), t))
+        return out
+    shared_in = S.InputObjectType("Opts", [S.InputField("o%d" % i, Any, default_value=rng.choice(ANY_POOL[:9])) for i in range(rng.randint(1, 3))])
+    schemas = []
+    for j in range(count):
+        fields = [S.Field("f%d" % i, rng.choice([S.Int, Any, S.String]), args=args("a", rng.randint(1, 3))) for i in range(rng.randint(1, 3))]
+        if rng.random() < 0.5:
+            fields.append(S.Field("opts", S.Int, args=[S.Argument("o", shared_in)]))
+        dirs = [S.Directive("d%d" % j, ["FIELD"], args=args("x", rng.randint(1, 2)))] if rng.random() < 0.4 else []
+        sch = S.Schema(query_type=S.ObjectType("Query", fields), directives=dirs)
+        sch.validate()
+        schemas.append(sch)
+    return schemas
+
+
+def rebuild_cases(sources):
+    """Live schemas of a list of sources (members of one shared family share their type objects)."""
+    fam = {}
+    out = []
+    for src in sources:
+        if "shared" in src:
+            key = (src["shared"]["seed"], src["shared"]["count"])
+            if key not in fam:
+                fam[key] = shared_build(*key)
+            out.append(fam[key][src["index"]])
+        else:
+            out.append(rebuild_case(src)[0])
+    return out
+
+
 def rebuild_case(src):
     from py_gql import build_schema
     import random
     if "sdl" in src:
         return build_schema(src["sdl"]), False
+    if "shared" in src:
+        return shared_build(src["shared"]["seed"], src["shared"]["count"])[src["index"]], False
     return code_build(random.Random(src["seed"]), src["content"], src["p_omit"])
+
+
+def gen_shared(ctx):
+    seed, count = ctx.rng.randrange(1 << 30), ctx.rng.randint(1, 3)
+    return [("shared", {"shared": {"seed": seed, "count": count}, "index": j}, s, False)
+            for j, s in enumerate(shared_build(seed, count))]
 
 
 def run_roundtrip(ctx):
@@ -336,7 +404,10 @@ def run_roundtrip(ctx):
             ctx.notes.append("round-trip cases cut short at %d" % k)
             break
         try:
-            origin, src, schema, h2 = gen_case(ctx)
+            if k % 5 == 4:
+                origin, src, schema, h2 = ctx.rng.choice(gen_shared(ctx))
+            else:
+                origin, src, schema, h2 = gen_case(ctx)
         except Exception as e:  # noqa  (C11's business; never let it escape)
             ctx.stat("generator-build-failed:" + type(e).__name__)
             continue
@@ -354,32 +425,60 @@ def run_histories(ctx, cases_out):
             ctx.notes.append("histories cut short at %d" % k)
             break
         schemas = []
-        for _ in range(ctx.rng.randint(1, 3)):
-            try:
-                schemas.append(gen_case(ctx, size=ctx.rng.choice([1, 2])))
-            except Exception as e:  # noqa
-                ctx.stat("generator-build-failed:" + type(e).__name__)
+        if k % 3 == 2:
+            schemas = gen_shared(ctx)
+            ctx.stat("history-family:shared-scalar")
+            if ctx.rng.random() < 0.5:
+                try:
+                    schemas.append(gen_case(ctx, size=1))
+                except Exception as e:  # noqa
+                    ctx.stat("generator-build-failed:" + type(e).__name__)
+        else:
+            for _ in range(ctx.rng.randint(1, 3)):
+                try:
+                    schemas.append(gen_case(ctx, size=ctx.rng.choice([1, 2])))
+                except Exception as e:  # noqa
+                    ctx.stat("generator-build-failed:" + type(e).__name__)
         if not schemas:
             continue
         hist = [(ctx.rng.randrange(len(schemas)), ctx.rng.choice(OPTS)) for _ in range(ctx.rng.randint(2, 6))]
-        # what each call returns when it is the first call of a fresh process
-        fresh = []
-        for i, o in hist:
-            reset_state()
-            fresh.append(call(schemas[i][2], o))
-        reset_state()
-        outs = [call(schemas[i][2], o) for i, o in hist]
+        fresh, outs = run_history(ctx, schemas, hist)
         ctx.count(len(hist))
         ctx.stat("history-length:%d" % len(hist))
         cases_out.append((schemas, hist, outs))
         for j, (f, g) in enumerate(zip(fresh, outs)):
             if f != g:
                 prev_custom = any(o["include_custom_schema_directives"] for _, o in hist[:j])
-                ctx.fail("history-dependent:after-custom-call=%d:custom=%d" % (prev_custom, hist[j][1]["include_custom_schema_directives"]),
+                fam = "shared-scalar:" if any("shared" in s[1] for s in schemas) else ""
+                ctx.fail("history-dependent:%safter-custom-call=%d:custom=%d" % (fam, prev_custom, hist[j][1]["include_custom_schema_directives"]),
                          "call #%d of a history returns a text different from the same call in a fresh state" % (j + 1),
                          {"schemas": [s[1] for s in schemas], "history": [[i, o] for i, o in hist], "index": j,
                           "fresh": f[1], "in_history": g[1]})
                 break
+
+
+def run_history(ctx, schemas, hist):
+    """(what each call returns as the FIRST call of a fresh process, what the calls return made in order in ONE
+    fresh process). Real processes (fork of a pristine helper) when available; otherwise this process with the
+    printer module's state re-initialised."""
+    from corr.C12_fresh import Zygote
+    z = Zygote.get()
+    srcs = [s[1] for s in schemas]
+    if z is not None:
+        try:
+            fresh = [z.history(srcs, [(i, o)])[0] for i, o in hist]
+            outs = z.history(srcs, hist)
+            ctx.stat("history-reference:fresh-process")
+            return fresh, outs
+        except RuntimeError as e:
+            ctx.notes.append("fresh-process helper unavailable: %s" % e)
+    ctx.stat("history-reference:in-process-reset")
+    fresh = []
+    for i, o in hist:
+        reset_state()
+        fresh.append(call(schemas[i][2], o))
+    reset_state()
+    return fresh, [call(schemas[i][2], o) for i, o in hist]
 
 
 def run_corpus(ctx):
@@ -486,19 +585,18 @@ def run(ctx):
     run_histories(ctx, hist)
     run_model(ctx, hist)
     reset_state()
+    from corr.C12_fresh import Zygote
+    if Zygote._inst is not None:
+        Zygote._inst.close()
 
 
 def replay(ctx, data):
     inp = data.get("input", {})
     if "history" in inp:
-        schemas = [rebuild_case(s)[0] for s in inp["schemas"]]
+        live = rebuild_cases(inp["schemas"])
+        schemas = [(None, src, s, False) for src, s in zip(inp["schemas"], live)]
         hist = [(i, o) for i, o in inp["history"]]
-        fresh = []
-        for i, o in hist:
-            reset_state()
-            fresh.append(call(schemas[i], o))
-        reset_state()
-        outs = [call(schemas[i], o) for i, o in hist]
+        fresh, outs = run_history(ctx, schemas, hist)
         reset_state()
         return fresh == outs
     if "source" in inp:
